@@ -68,6 +68,11 @@ def fingerprint(o):
             fp[m] = repr(getattr(o, m)())
         except Exception as e:  # noqa
             fp[m] = 'raises:' + type(e).__name__
+        # ... and column by column, by POSITION (two columns may carry one name)
+        try:
+            fp[m + '/by-position'] = repr([getattr(o, m)(j) for j in range(o.shape[1])]) if o.ndim == 2 else '-'
+        except Exception as e:  # noqa
+            fp[m + '/by-position'] = 'raises:' + type(e).__name__
     return fp
 
 
@@ -82,8 +87,13 @@ def derive(o, how, proto=2):
             m = np.ones(o.shape[0], dtype=bool)
             m[-1] = o.shape[0] == 1
             return o[m]
+        n0, n1 = o.channels[0], o.channels[1 if o.shape[1] > 1 else 0]      # whatever channels this object still has
         if how == 'pick_channels':
-            return o[:, ['c1', 'c2']]          # advanced index along the channel axis: new, column-ordered buffer
+            return o[:, [n0, n1]]              # advanced index along the channel axis: new, column-ordered buffer
+        if how == 'dup_cols':
+            names = list(o.channels)
+            t = o[:, [names[0], names[-1], names[-1]]]          # one channel named twice
+            return FlowCal.transform.to_rfi(t, 2, amplification_type=(2.0, 0.5), resolution=1000)   # the second copy, by position
         if how == 'copy':
             return o.copy()
         if how == 'copycopy':
@@ -95,13 +105,13 @@ def derive(o, how, proto=2):
         if how == 'pickle':
             return pickle.loads(pickle.dumps(o, protocol=proto))
         if how == 'to_rfi':
-            return FlowCal.transform.to_rfi(o, 'c2')
+            return FlowCal.transform.to_rfi(o, n1)
         if how == 'to_mef':
-            return FlowCal.transform.to_mef(o, 'c2', [lambda x: 3.0 * x + 1.0], ['c2'])
+            return FlowCal.transform.to_mef(o, n1, [lambda x: 3.0 * x + 1.0], [n1])
         if how == 'start_end':
             return FlowCal.gate.start_end(o, num_start=0, num_end=1 if o.shape[0] > 1 else 0)
         if how == 'high_low':
-            return FlowCal.gate.high_low(o, channels=['c1'], high=1e9, low=-1e9)
+            return FlowCal.gate.high_low(o, channels=[n0], high=1e9, low=-1e9)
         if how == 'astype':
             return o.astype(np.float64)
     raise ValueError(how)
